@@ -55,6 +55,31 @@ def plan(tier, seed):
               dd=pick(rng, ["complex128", "complex128", "float64", "complex64", "float32"]),
               df=pick(rng, ["complex128", "complex128", "float64", "complex64", "float32"]),
               via=pick(rng, ["func", "func", "linop"]))
+        if i % 9 == 4:
+            # integer operands (counts, label masks, integer taps): the convolution of
+            # integers is exact - both integer, or an integer next to a real / complex one
+            c_ = P.cases[-1]
+            c_["dd"] = pick(rng, ["int64", "int32", "int64", "uint8"])
+            c_["df"] = pick(rng, ["int64", "int32", "int16", "float64", "complex128"])
+            c_["mag"] = [1, 1]
+    # realistic sizes: a 256 x 256 image (a label mask, a float or complex image) with a small
+    # filter, a long 1-D signal, a 3-D volume - full outputs of 2**16 samples and more; decided
+    # against the definition evaluated tap by tap (vf.oracles.conv.convolve_shift_add)
+    bigs = [([256, 256], [3, 3]), ([70000], [5]), ([300, 280], [7, 5]), ([48, 50, 44], [3, 3, 3]),
+            ([256, 256], [1, 9]), ([1 << 16], [2]), ([512, 300], [2, 2]), ([130, 140], [130, 140])]
+    rngb = P.rng("conv-big")
+    for i in range(4 if quick else 24):
+        m, n = bigs[int(rngb.integers(3))] if quick and i < 2 else bigs[
+            int(rngb.integers(len(bigs) - (1 if quick else 0)))]
+        multi = bool(rngb.random() < 0.3) and int(np.prod(n)) <= 64
+        dd = pick(rngb, ["int64", "int32", "float64", "complex64", "uint8"]) if i % 2 == 0 \
+            else pick(rngb, ["int64", "int32"])
+        P.add("conv", m=m, n=n, rel="big", mode=pick(rngb, ["full", "valid"]),
+              strides=None if rngb.random() < 0.6 else [int(rngb.integers(1, 4)) for _ in m],
+              multi=multi, ci=2 if multi else 1, co=int(rngb.integers(1, 3)) if multi else 1,
+              batch=pick(rngb, [[], [], [2]]), mag=[1, 1], dd=dd,
+              df=dd if dd.startswith("int") else pick(rngb, ["int64", "float64", dd]),
+              via=pick(rngb, ["func", "linop"]), big=True, timeout=900)
     # histories: adjoint calls on two shape settings and two stride settings in varying
     # order within one process (scratch buffers / cached plans must not leak between calls)
     for i in range(60 if quick else 900):
@@ -133,9 +158,17 @@ def run_case(case):
     dshape = case["batch"] + ([case["ci"]] if multi else []) + m
     fshape = ([case["co"], case["ci"]] if multi else []) + n
     lay = sum(case["rs"]) % 8            # 1-3: data F / T / strided; 5-7: filter likewise
+    def draw(shape, dtn):
+        if np.dtype(dtn).kind in "iu":
+            lo = 0 if np.dtype(dtn).kind == "u" else -4
+            return rng.integers(lo, 5, shape).astype(dtn)
+        return crandn(rng, shape, dtn)
     with structured((sum(case["rs"]) // 3) % 10 if sum(case["rs"]) % 2 else 0):
-        data = relayout(crandn(rng, dshape, case["dd"]), lay if lay < 4 else 0)
-        filt = relayout(crandn(rng, fshape, case["df"]), lay - 4 if lay >= 4 else 0)
+        data = relayout(draw(dshape, case["dd"]), lay if lay < 4 else 0)
+        filt = relayout(draw(fshape, case["df"]), lay - 4 if lay >= 4 else 0)
+    if case["dd"] == "uint8" and np.dtype(case["df"]).kind in "iu":
+        filt = np.abs(filt)           # (unsigned counts with non-negative taps: no wrap-around)
+    integer = data.dtype.kind in "iu" and filt.dtype.kind in "iu"
     md, mf = case.get("mag", [1, 1])     # magnitudes: convolution is bilinear, so homogeneous
     if md != 1:
         data = data * data.dtype.type(md)
@@ -194,7 +227,7 @@ def run_case(case):
         return violated(sig, "valid-mode call with neither operand containing the other was "
                         "not rejected (returned shape %s)" % (got.shape,), wit,
                         mech="mixed-accepted")
-    ref = O.convolve(d0, f0, mode, strides, multi)
+    ref = (O.convolve_shift_add if case.get("big") else O.convolve)(d0, f0, mode, strides, multi)
     checks = 1
     if tuple(got.shape) != tuple(ref.shape):
         return violated(sig, "returned shape %s, definition gives %s (neither computed "
@@ -209,6 +242,14 @@ def run_case(case):
     if not e <= (1e-4 if single else 1e-10):
         return violated(sig, "differs from the convolution definition: rel %.3g" % e, wit,
                         mech="value", obs=obs)
+    if integer and got.dtype.kind in "iu":
+        # integer operands, integer result: exact, not merely close
+        checks += 1
+        nwrong = int(np.sum(got.astype(np.int64) != np.asarray(ref).real.astype(np.int64)))
+        if nwrong and int(np.max(np.abs(ref))) < np.iinfo(got.dtype).max:
+            return violated(sig, "integer convolution is not exact: %d of %d samples differ "
+                            "from the definition" % (nwrong, got.size), wit, mech="value-int",
+                            obs=obs)
     if not (np.array_equal(data, d0) and np.array_equal(filt, f0)):
         return violated(sig, "operand modified", wit, mech="mutated")
     # unit impulses
@@ -218,7 +259,8 @@ def run_case(case):
     fi.reshape(-1)[int(rng.integers(fi.size))] = 1j
     try:
         gi = sp.convolve(di, fi, **kw)
-        ri = O.convolve(di, fi, mode, strides, multi)
+        ri = (O.convolve_shift_add if case.get("big") else O.convolve)(di, fi, mode, strides,
+                                                                      multi)
         checks += 1
         if gi.shape != ri.shape or nrm(gi - ri) > 1e-12:
             return violated(sig, "impulse response misplaced", wit, mech="impulse")
@@ -286,6 +328,32 @@ def run_case(case):
         if out2.shape != out.shape or not np.array_equal(out2, out):
             return violated(sig, "the same convolution gives another result after rejected "
                             "calls in between", wit, mech="history-after-failure")
+    if sum(case["rs"]) % 3 == 1:
+        # history: the caller updates its operand arrays in place (the next filter estimate of
+        # an alternating minimisation, the next frame) and calls again with the SAME objects:
+        # identical to calls on fresh copies of the new values
+        fc *= fc.dtype.type(0.5) if fc.dtype.kind == "f" else fc.dtype.type(0.5 - 1j)
+        fc.reshape(-1)[::2] *= -1
+        dc += dc.dtype.type(0.25)
+        try:
+            same = (sp.convolve(dc, fc, **kw), sp.convolve_data_adjoint(y, fc, dshape, **kw),
+                    sp.convolve_filter_adjoint(y, dc, fshape, **kw))
+            fresh = (sp.convolve(dc.copy(), fc.copy(), **kw),
+                     sp.convolve_data_adjoint(y.copy(), fc.copy(), dshape, **kw),
+                     sp.convolve_filter_adjoint(y.copy(), dc.copy(), fshape, **kw))
+        except Exception as e:
+            return violated(sig, "call after an in-place update of the operands raised %s" %
+                            type(_innermost(e)).__name__, wit, mech="arg-update")
+        for nm_, a_, b_ in zip(("convolve", "convolve_data_adjoint", "convolve_filter_adjoint"),
+                               same, fresh):
+            checks += 1
+            if a_.shape != b_.shape or not np.array_equal(a_, b_, equal_nan=True):
+                return violated(sig, "%s: after the caller updated the data / filter arrays in "
+                                "place, a call with the same objects differs from a call on "
+                                "fresh copies of the new values (max diff %.3g)" % (
+                                    nm_, float(np.max(np.abs(a_ - b_)))), wit,
+                                mech="arg-update:" + nm_)
+        sig += "|arg-update"
     if not multi and list(dshape) == list(fshape) and mode == "full":
         # the same array object as data and as filter (auto-convolution)
         try:
@@ -293,7 +361,8 @@ def run_case(case):
         except Exception as e:
             return violated(sig, "auto-convolution (same array as data and filter) raised %s"
                             % type(e).__name__, wit, mech="same-object")
-        rc = O.convolve(dc, dc.copy(), mode, strides, multi)
+        rc = (O.convolve_shift_add if case.get("big") else O.convolve)(dc, dc.copy(), mode,
+                                                                      strides, multi)
         checks += 1
         if ac.shape != rc.shape or nrm(ac - rc) > 1e-10 * (nrm(rc) + 1e-300):
             return violated(sig, "convolve(x, x) with the same array object differs from the "
